@@ -249,8 +249,9 @@ def rule_d_must_pass(ctx):
             ctx.ob("sequence-spawned|%s" % st.name, not st.path_exists_to_return(n, avoiding=spawn_e),
                    "a sequence of same-origin actions is handed to the executor on every path", [n])
         for sp in spawn_a + spawn_e:
-            ctx.ob("spawned-then-run|%s" % st.name, not st.path_exists_to_return(sp, avoiding=runs + oos),
-                   "once an action is spawned every path to a return runs the executor (except the OutOfSync failure)", [sp])
+            # a failure result is the only way out before run; that it can only be the OutOfSync failure is C18.a
+            ctx.ob("spawned-then-run|%s" % st.name, not st.path_exists_to_return(sp, avoiding=runs + oos + K.failure_results(st)),
+                   "once an action is spawned every path to a return runs the executor (except a failure result, i.e. OutOfSync: C18.a)", [sp])
 
 
 def rule_e(ctx):
